@@ -110,9 +110,9 @@ def main():
     G3='clifford/tools/g3c/__init__.py'
     res.append(semantic('mv2lean.py','annihilate_k: K[0] + K(4)',[(G3,"k_4 = K.value[0] - K(4)","k_4 = K.value[0] + K(4)")]))
     res.append(semantic('mv2lean.py','positive_root: sigma - norm_s',[(G3,"    denominator = (math.sqrt(2) * math.sqrt(sigma.value[0] + norm_s))\n    return (sigma + norm_s)/denominator","    denominator = (math.sqrt(2) * math.sqrt(sigma.value[0] + norm_s))\n    return (sigma - norm_s)/denominator")]))
-    res.append(semantic('mv2lean.py','rotor_between_objects_root: C from X1*X2',[(G3,"        C = 1 + gamma*(X2 * X1)\n        if abs(C.value[0]) < 1E-6:\n            R = (I5eo * X21)(2).normal()","        C = 1 + gamma*(X1 * X2)\n        if abs(C.value[0]) < 1E-6:\n            R = (I5eo * X21)(2).normal()")]))
+    res.append(semantic('mv2lean.py','rotor_between_objects_root: C from X1*X2',[(G3,"        C = 1 + gamma*(X2 * X1)\n        if abs(C.value[0]) < 1E-6:\n            R = (I5eo * X21)(2)\n","        C = 1 + gamma*(X1 * X2)\n        if abs(C.value[0]) < 1E-6:\n            R = (I5eo * X21)(2)\n")]))
     res.append(semantic('mv2lean.py','dorst_norm: plus',[(G3,"sqrd_ans = sigma.value[0] ** 2 - (sigma_4 * sigma_4).value[0]","sqrd_ans = sigma.value[0] ** 2 + (sigma_4 * sigma_4).value[0]")]))
-    res.append(harmless('mv2lean.py','rotor_between_objects_root: C = 1 + (X2*X1)*gamma',[(G3,"        C = 1 + gamma*(X2 * X1)\n        if abs(C.value[0]) < 1E-6:\n            R = (I5eo * X21)(2).normal()","        C = 1 + (X2 * X1)*gamma\n        if abs(C.value[0]) < 1E-6:\n            R = (I5eo * X21)(2).normal()")]))
+    res.append(harmless('mv2lean.py','rotor_between_objects_root: C = 1 + (X2*X1)*gamma',[(G3,"        C = 1 + gamma*(X2 * X1)\n        if abs(C.value[0]) < 1E-6:\n            R = (I5eo * X21)(2)\n","        C = 1 + (X2 * X1)*gamma\n        if abs(C.value[0]) < 1E-6:\n            R = (I5eo * X21)(2)\n")]))
     res.append(semantic('mv2lean.py','fast_up: + no',[(G3,"return mv - no + (0.5 * ((mv * mv) * ninf))","return mv + no + (0.5 * ((mv * mv) * ninf))")]))
     res.append(semantic('mv2lean.py','fast_down: E0 on the left',[(G3,"return (fast_homo(mv) ^ E0) * E0","return E0 * (fast_homo(mv) ^ E0)")]))
     res.append(semantic('mv2lean.py','euc_dist: -1.0*dot',[(G3,"return math.sqrt(-2.0*dot_result)","return math.sqrt(-1.0*dot_result)")]))
